@@ -87,13 +87,19 @@ def innermost_pycdlib_frame(exc):
 
 
 class Session:
-    def __init__(self, cfg, seed=0, always_consistent=False, model=None, clock=1600000000.0):
+    def __init__(self, cfg, seed=0, always_consistent=False, model=None, clock=1600000000.0, reuse=None):
         import pycdlib
         self.pycdlib = pycdlib
         self.cfg = cfg
         self.seed = seed
         self.always_consistent = always_consistent
-        self.iso = pycdlib.PyCdlib(always_consistent=always_consistent)
+        if reuse is not None:
+            # the PyCdlib object of an earlier session, closed: close() documents that the object
+            # can be used for another image afterwards
+            reuse.close()
+            self.iso = reuse.iso
+        else:
+            self.iso = pycdlib.PyCdlib(always_consistent=always_consistent)
         self.model = model if model is not None else Model(cfg)
         self.events = []
         self.ops = []          # every op attempted, in order, with outcome sig
@@ -260,12 +266,13 @@ class Session:
         count('api:write_fp:%s' % ('ok' if oc.ok else oc.exc_class))
         return (out if oc.ok else None), oc
 
-    def reopen(self, image):
-        """Open the written image in a fresh object; the model is carried over
-        (a deep copy that switches to parsed link semantics)."""
+    def reopen(self, image, reuse=False):
+        """Open the written image in a fresh object (or, with reuse, in this session's own object
+        after close()); the model is carried over (a deep copy that switches to parsed link
+        semantics)."""
         m = self.model.clone()
         m.reopened()
-        s = Session(self.cfg, self.seed, self.always_consistent, model=m)
+        s = Session(self.cfg, self.seed, self.always_consistent, model=m, reuse=self if reuse else None)
         seq = len(self.events)
         try:
             data = image if isinstance(image, (bytes, bytearray)) else (image.getvalue() if not image.virtual else None)
@@ -348,7 +355,7 @@ def advance(s, op):
     img, oc = s.write()
     if not oc.ok:
         return s, Outcome(False, oc.exc_class, 'write before reopen: %s' % oc.exc_msg, oc.exc_where)
-    s2, oc2 = s.reopen(img)
+    s2, oc2 = s.reopen(img, reuse=bool(op.get('reuse')))
     if not oc2.ok:
         s2.close()
         return s, Outcome(False, oc2.exc_class, 'open: %s' % oc2.exc_msg, oc2.exc_where)
